@@ -44,7 +44,7 @@ type keyioCase struct {
 	TTL     uint32
 	Incep   uint32
 	Expir   uint32
-	Steer   int // library-made ECDSA keys only: 0 = random key; n > 0 = Generate is fed the n-th scalar of shortCoord (mod its length)
+	Steer   int // library-made ECDSA keys only: 0 = random key; n > 0 = Generate is fed scalar n of steerScalar (short coordinate or short private scalar)
 }
 
 // RSA sizes. DNSKEY.Generate takes the modulus length in BITS and accepts every value from 512 (1024
@@ -136,6 +136,42 @@ var shortCoord = map[uint8][]uint64{
 	14: {36805, 76467, 162592, 197613, 168949, 205437}, // P-384: X, Y, X, Y, X, Y short
 }
 
+// Round 10: the private scalar itself with leading zero octets (one key in 256 has one, one in 65536
+// two). BIND writes the PrivateKey field at the width of the curve, the RSA fields of the same file
+// are plain integers: an exporter and an importer that disagree on the width of this field only
+// fail for these keys ("keys exported to and re-read ... interchangeably with the original" holds
+// for every key). steerCount(alg) scalars can be fed to Generate: first those of shortCoord, then
+// four whose top 1, 1, 2, 3 octets are zero: d = the first size-z octets of
+// SHA-384("c17-short-scalar/<curve>/<i>") with a non-zero first octet (always below the group order).
+var shortScalarZeros = []int{1, 1, 2, 3}
+
+func steerCount(alg uint8) int {
+	if len(shortCoord[alg]) == 0 {
+		return 0
+	}
+	return len(shortCoord[alg]) + len(shortScalarZeros)
+}
+
+// steerScalar returns the scalar number steer (1-based, taken modulo steerCount) and the curve size.
+func steerScalar(alg uint8, steer int) (*big.Int, int) {
+	tab := shortCoord[alg]
+	i := (steer - 1) % steerCount(alg)
+	if i < len(tab) {
+		return shortScalar(alg, tab[i])
+	}
+	i -= len(tab)
+	size := 32
+	if alg == 14 {
+		size = 48
+	}
+	h := sha512.Sum384([]byte(fmt.Sprintf("c17-short-scalar/%d/%d", size, i)))
+	b := h[:size-shortScalarZeros[i]]
+	if b[0] == 0 {
+		b[0] = 1
+	}
+	return new(big.Int).SetBytes(b), size
+}
+
 func shortScalar(alg uint8, ctr uint64) (*big.Int, int) {
 	curve, name, size := elliptic.P256(), "P-256", 32
 	if alg == 14 {
@@ -178,10 +214,10 @@ var (
 // and every error message carries the private key text.
 func libGenerate(k *dns.DNSKEY, bits, slot, steer int) (crypto.PrivateKey, error) {
 	isRSA := k.Algorithm == 5 || k.Algorithm == 7 || k.Algorithm == 8 || k.Algorithm == 10
-	if tab := shortCoord[k.Algorithm]; steer > 0 && len(tab) > 0 {
+	if steer > 0 && steerCount(k.Algorithm) > 0 {
 		// the harness owns the entropy source for the duration of this call (nothing else runs in
 		// this process meanwhile: the sub-checks of this package are sequential)
-		d, size := shortScalar(k.Algorithm, tab[(steer-1)%len(tab)])
+		d, size := steerScalar(k.Algorithm, steer)
 		buf := make([]byte, size)
 		d.FillBytes(buf)
 		old := rand.Reader
@@ -447,7 +483,7 @@ func checkKeyIO(c keyioCase) (err error) {
 			zx, zy := size-len(e.X.Bytes()), size-len(e.Y.Bytes())
 			pbt.Class(fmt.Sprintf("ecdsa-leading-zero-octets(X or Y)=%d", min(max(zx, zy), 2)))
 			if c.Steer > 0 {
-				if want, _ := shortScalar(c.Alg, shortCoord[c.Alg][(c.Steer-1)%len(shortCoord[c.Alg])]); e.D.Cmp(want) == 0 {
+				if want, _ := steerScalar(c.Alg, c.Steer); e.D.Cmp(want) == 0 {
 					pbt.Class("generate-steered")
 				} else {
 					pbt.Class("generate-steering-ineffective") // Generate drew its entropy elsewhere: the key is an ordinary random one
@@ -461,6 +497,9 @@ func checkKeyIO(c keyioCase) (err error) {
 			err = fmt.Errorf("%v\nDNSKEY public key: %s\nprivate key text:\n%s", err, k.PublicKey, txt)
 		}
 	}()
+	if e, ok := priv.(*ecdsa.PrivateKey); ok {
+		pbt.Class(fmt.Sprintf("ecdsa-private-scalar-leading-zero-octets=%d(refmade=%v)", min((e.Curve.Params().BitSize+7)/8-len(e.D.Bytes()), 3), c.RefMade))
+	}
 
 	if rk, ok := priv.(*rsa.PrivateKey); ok {
 		pbt.Class(fmt.Sprintf("rsa-modulus-octets=%d", rk.Size()), fmt.Sprintf("rsa-exponent-octets=%d", len(big.NewInt(int64(rk.E)).Bytes())),
@@ -475,6 +514,25 @@ func checkKeyIO(c keyioCase) (err error) {
 	if derr != nil || !bytes.Equal(oct, want) {
 		return pbt.Errf("DNSKEY public key field is not the RFC encoding of the generated key (alg %d)", c.Alg)
 	}
+	pub, perr := ref.ParseKeyOctets(c.Alg, oct)
+	if perr != nil {
+		return pbt.Errf("reference cannot read the DNSKEY public key: %v", perr)
+	}
+	// the exported text states the key's parameters
+	if !c.RefMade {
+		if e := checkBINDText(c.Alg, txt, priv); e != nil {
+			return pbt.Errf("PrivateKeyString: %v", e)
+		}
+	}
+	// re-import
+	priv2, ierr := k.NewPrivateKey(txt)
+	if ierr != nil {
+		return pbt.Errf("NewPrivateKey of the exported text: %v", ierr)
+	}
+	if e := samePrivate(priv, priv2); e != nil {
+		return pbt.Errf("NewPrivateKey returned a different key: %v", e)
+	}
+	// (after the re-import of the case's own key, so that a steered key is reported as itself)
 	if !c.RefMade && (c.Alg == 13 || c.Alg == 14 || c.Alg == 15) {
 		// fixed-width encodings only show their padding for the 1-in-256 keys with a leading zero
 		// octet in a coordinate: generate some more keys (cheap for EC / Ed25519) and check the
@@ -495,24 +553,6 @@ func checkKeyIO(c keyioCase) (err error) {
 			}
 		}
 		pbt.Class("extra-generated-keys")
-	}
-	pub, perr := ref.ParseKeyOctets(c.Alg, oct)
-	if perr != nil {
-		return pbt.Errf("reference cannot read the DNSKEY public key: %v", perr)
-	}
-	// the exported text states the key's parameters
-	if !c.RefMade {
-		if e := checkBINDText(c.Alg, txt, priv); e != nil {
-			return pbt.Errf("PrivateKeyString: %v", e)
-		}
-	}
-	// re-import
-	priv2, ierr := k.NewPrivateKey(txt)
-	if ierr != nil {
-		return pbt.Errf("NewPrivateKey of the exported text: %v", ierr)
-	}
-	if e := samePrivate(priv, priv2); e != nil {
-		return pbt.Errf("NewPrivateKey returned a different key: %v", e)
 	}
 	// the same key file as BIND writes and people edit it: v1.3 timing fields, blank lines, a comment
 	// line, no newline at the end, read through NewPrivateKey and through ReadPrivateKey
@@ -548,9 +588,18 @@ func checkKeyIO(c keyioCase) (err error) {
 		pbt.Class("key-file-variant")
 	}
 	if c.RefMade {
-		// export of the imported key
-		if e := checkBINDText(c.Alg, k.PrivateKeyString(priv2), priv); e != nil {
+		// export of the imported key, and that text re-read: the library reads what it writes for a key
+		// it did not make itself too (reference-made EC keys have short scalars on purpose: see genKeyIO)
+		txt2 := k.PrivateKeyString(priv2)
+		if e := checkBINDText(c.Alg, txt2, priv); e != nil {
 			return pbt.Errf("PrivateKeyString(NewPrivateKey(reference text)): %v", e)
+		}
+		p5, e := k.NewPrivateKey(txt2)
+		if e == nil {
+			e = samePrivate(priv, p5)
+		}
+		if e != nil {
+			return pbt.Errf("NewPrivateKey of the text exported for the key read from the reference's key file: %v\n--- the exported text:\n%s---", e, txt2)
 		}
 	}
 	s1, ok1 := priv.(crypto.Signer)
@@ -655,11 +704,28 @@ func genKeyIO(t *rapid.T) keyioCase {
 			c.Slot = ref.RSAEdgeBase + rapid.IntRange(0, ref.RSAEdgeSize()-1).Draw(t, "edgeslot")
 		}
 	}
-	if !c.RefMade && len(shortCoord[c.Alg]) > 0 && rapid.IntRange(0, 2).Draw(t, "steer") == 0 {
-		c.Steer = 1 + rapid.IntRange(0, len(shortCoord[c.Alg])-1).Draw(t, "steeridx")
+	if !c.RefMade && steerCount(c.Alg) > 0 && rapid.IntRange(0, 2).Draw(t, "steer") == 0 {
+		c.Steer = 1 + rapid.IntRange(0, steerCount(c.Alg)-1).Draw(t, "steeridx")
+		if rapid.Bool().Draw(t, "steershortd") { // half of the steered keys: a short private scalar
+			c.Steer = 1 + len(shortCoord[c.Alg]) + rapid.IntRange(0, len(shortScalarZeros)-1).Draw(t, "steershortdidx")
+		}
 	}
-	// seeds with leading zero octets give private scalars with leading zeros (fixed-width encodings)
+	// seeds with leading zero octets, and seeds shorter than the curve, give private scalars with
+	// leading zeros (fixed-width encodings); a third of the seeds is as long as the curve with 1..3
+	// zero octets in front, so that the class does not hang on the length drawn
 	c.Seed = rapid.SliceOfN(rapid.Byte(), 1, 48).Draw(t, "seed")
+	// (and another third is longer than the curve: an ordinary scalar of full width)
+	if size := map[uint8]int{13: 32, 14: 48}[c.Alg]; size > 0 && c.RefMade {
+		switch rapid.IntRange(0, 2).Draw(t, "shortd") {
+		case 0:
+			z := rapid.IntRange(1, 3).Draw(t, "shortdz")
+			c.Seed = rapid.SliceOfN(rapid.Byte(), size-z, size-z).Draw(t, "shortdseed")
+			c.Seed[0] |= 1
+		case 1:
+			c.Seed = rapid.SliceOfN(rapid.Byte(), size+8, size+8).Draw(t, "fulldseed")
+			c.Seed[0] |= 1
+		}
+	}
 	c.SEP = rapid.Bool().Draw(t, "sep")
 	copy(c.A[:], rapid.SliceOfN(rapid.Byte(), 4, 4).Draw(t, "a"))
 	c.TTL = rapid.Uint32Range(1, 1<<31-1).Draw(t, "ttl")
